@@ -18,6 +18,11 @@ RULE = (
     "recoveries) and does not abort; executions of every job <= 1 + own failures + loss events of its outputs "
     "(each producer re-executed at most once per loss); outputs equal the failure-free reference (a wrong output is "
     "classified exactly as 'gather ran on a strict sub-list of the reference elements' or 'other'). "
+    "Cross family (enumerated_cases): two producers P, Q and consumers Z(P,Q), X(P,Q1), Y(Q,P1) "
+    "with Q1(Q), P1(P) - seen from X and from Y the two common ancestors sit at different depths - where Z, X, Y fail-stop "
+    "in nearby instants and a disk with the producers' (and mostly the intermediates') outputs is lost; this family "
+    "decides one obligation only: the recoveries never wait for each other's per-request locks in a cycle (a deadlock "
+    "in which every pending recovery is parked on a lock); its other outcomes are counted in probes cross.*. "
     "non-trivial = two recoveries overlapped in virtual time; distinct = loop digests"
 )
 COMPONENTS = _c16.COMPONENTS
@@ -40,10 +45,29 @@ def _wrong_output_kind(shape, got):
     return "other"
 
 
+def cases(tier):
+    # cross family: three consumers of two producers, the producers reached at different depths from two of them
+    return [{"family": "cross"} for _ in range(200 if tier == "quick" else 6000)]
+
+
+def _lock_cycle(report):
+    """':every_recovery_parked_on_a_request_lock' when at least two recoveries are pending and ALL of them wait for a per-job
+    request lock (none waits for a token): they can only be waiting for each other. The listed deadlocks always have a
+    recovery that waits on a port."""
+    rec = [p for p in report if any(a.startswith("failure_manager.py") for a in p["at"])]
+    on_lock = [p for p in rec if any(a.startswith("locks.py") and a.endswith(":acquire") for a in p["at"][-3:])]
+    return ":every_recovery_parked_on_a_request_lock" if len(rec) >= 2 and len(on_lock) == len(rec) else ""
+
+
 def run(sim, params):
     t = sim.tape
-    kind = ("sg2", "sg2", "diamond", "sg")[t.draw(4, "shape")]
-    if kind == "diamond":
+    kind = ("sg2", "sg2", "diamond", "sg")[t.draw(4, "shape")] if params.get("family") != "cross" else "cross"
+    if kind == "cross":
+        shape = {"kind": "cross"}
+        failing = [j for j in ("/Z/0", "/X/0", "/Y/0") if t.draw(4, "fail." + j) != 0] or ["/Z/0", "/X/0"]
+        # a location losing its disk: the producers and (mostly) the intermediate jobs lose their outputs together
+        anc = ["/P/0", "/Q/0"] + ([] if t.draw(4, "cross.lose.mid") == 0 else ["/P1/0", "/Q1/0"])
+    elif kind == "diamond":
         shape = {"kind": "diamond"}
         failing = ["/B/0", "/C/0"]
         anc = ["/A/0"]
@@ -72,11 +96,24 @@ def run(sim, params):
     d = S.desc(shape, faults)
     overlapped = sim.probes.get("recoveries_overlapped", 0) > 0
     rep = ":a_job_failed_repeatedly" if any(len(fl) > 1 for fl in faults.values()) else ":one_failure_per_job"
+    if params.get("family") == "cross":
+        # This family decides ONE obligation - the per-request locks are taken in a global order, so recoveries never wait
+        # for each other in a cycle. With five jobs recovering at once the other obligations fail here in many rare ways that
+        # all belong to the listed overlapping-recovery defect family; they are decided (and characterised signature by
+        # signature) on the scatter and diamond shapes, not here.
+        if res.status == "deadlock" and _lock_cycle(res.deadlock):
+            raise Violation("deadlock", f"recoveries wait for each other's request locks; pending={[(p['task'], p['at'][-2:]) for p in res.deadlock][:6]}; {d}",
+                            signature="deadlock:every_recovery_parked_on_a_request_lock")
+        sim.probe("cross." + res.status)
+        if res.status != "deadlock":
+            sim.run(res.ctx.close())
+        return {"nontrivial": overlapped, "sample": {"shape": shape, "failing": failing, "status": res.status, "executions": dict(res.ctl.execs)}}
     if res.status == "deadlock":
         raise Violation("deadlock", f"recoveries never terminated (loop quiescent; overlapped={overlapped}); "
                         f"pending={[(p['task'], p['at'][-2:]) for p in res.deadlock][:6]}; {d}",
                         signature="deadlock:" + ("concurrent_recoveries" if overlapped else "single_recovery")
-                        + (":a_job_failed_repeatedly" if any(len(fl) > 1 for fl in faults.values()) else ":one_failure_per_job"))
+                        + (":a_job_failed_repeatedly" if any(len(fl) > 1 for fl in faults.values()) else ":one_failure_per_job")
+                        + _lock_cycle(res.deadlock))
     try:
         _c18.check_executions(sim, res, shape, faults, per_loss_bound=True)
     except Violation as v:
